@@ -28,6 +28,7 @@ MODELS = [
     ("MC_store", {"Family": '"store"', "Tier": '"quick"', "Export": "FALSE", "Defects": '{"store_304"}'}, {"C06"}),
     ("MC_conc", {"Tier": '"quick"', "Export": "FALSE", "Defects": '{"bg_shares_response"}'}, {"C16"}),
     ("MC_swr", {"Tier": '"quick"', "Export": "FALSE", "SwrSetting": "0", "Defects": '{"bg_shares_response"}'}, {"C16"}),
+    ("MC_swr", {"Tier": '"quick"', "Export": "FALSE", "SwrSetting": "0", "Defects": '{"swr_strips_validators"}'}, {"C20"}),
 ]
 PLAIN = [
     # module, constants, invariant that must be violated
@@ -62,7 +63,7 @@ REVERTS = [
     ("directory levels of fragmented", ["C14"]), ("fscache can store a value under the empty key", ["C14"]),
     ("the TE field is removed", ["C05"]), ("connection-level fields written by the entry serialisation", ["C05"]),
     ("an encrypted fscache entry is bound", ["C17"]), ("only-if-cached with max-age=0", ["C11"]),
-    ("fscache lists keys relative", ["C14"]),
+    ("fscache lists keys relative", ["C14"]), ("the background revalidation of a stale-while-revalidate serve is built", ["C20"]),
 ]
 
 
